@@ -34,14 +34,15 @@ import (
 
 // padAction is an action whose encoding has exactly Size bytes and which declares Keys.
 type padAction struct {
-	Size int
-	Keys []string
-	Idx  byte
+	Size   int
+	Keys   []string
+	Idx    byte
+	FromID bool // additionally declares a key derived from the action id ("fresh object" keys)
 }
 
-func (*padAction) GetTypeID() uint8                        { return 9 }
-func (*padAction) ValidRange(chain.Rules) (int64, int64)  { return -1, -1 }
-func (*padAction) ComputeUnits(chain.Rules) uint64         { return 3 }
+func (*padAction) GetTypeID() uint8                      { return 9 }
+func (*padAction) ValidRange(chain.Rules) (int64, int64) { return -1, -1 }
+func (*padAction) ComputeUnits(chain.Rules) uint64       { return 3 }
 func (a *padAction) Bytes() []byte {
 	b := make([]byte, a.Size)
 	b[0] = 9
@@ -50,8 +51,11 @@ func (a *padAction) Bytes() []byte {
 	}
 	return b
 }
-func (a *padAction) StateKeys(codec.Address, ids.ID) state.Keys {
+func (a *padAction) StateKeys(_ codec.Address, actionID ids.ID) state.Keys {
 	ks := state.Keys{}
+	if a.FromID {
+		ks[key(string(actionID[:8]), 2)] = state.All
+	}
 	for _, k := range a.Keys {
 		ks[k] = state.All
 	}
@@ -62,16 +66,17 @@ func (*padAction) Execute(context.Context, chain.Rules, state.Mutable, int64, co
 }
 
 type caseSpec struct {
-	scheme  string
-	n, k    int
-	a, b    int // sizes; -1 = morpheus transfer with memo len = the other field
-	keyMode int // 0 none, 1 one shared key, 2 one distinct key per action, 3 two keys (shared chunk 5 + distinct chunk 1)
-	ts      int64
-	morph   bool
+	scheme    string
+	n, k      int
+	a, b      int  // sizes; -1 = morpheus transfer with memo len = the other field
+	keyMode   int  // 0 none, 1 one shared key, 2 one distinct key per action, 3 two keys (shared chunk 5 + distinct chunk 1), 4 shared key + key derived from the action id
+	zeroChain bool // chain id 0 (canoto omits zero fields; the default here is a non-zero chain id)
+	ts        int64
+	morph     bool
 }
 
 func (c caseSpec) String() string {
-	return fmt.Sprintf("auth=%s actions=%d (%d of size %d then %d of size %d) keyMode=%d timestamp=%d morpheusTransfer=%v", c.scheme, c.n, c.k, c.a, c.n-c.k, c.b, c.keyMode, c.ts, c.morph)
+	return fmt.Sprintf("auth=%s actions=%d (%d of size %d then %d of size %d) keyMode=%d timestamp=%d morpheusTransfer=%v zeroChainID=%v", c.scheme, c.n, c.k, c.a, c.n-c.k, c.b, c.keyMode, c.ts, c.morph, c.zeroChain)
 }
 
 func key(name string, chunks uint16) string {
@@ -102,6 +107,9 @@ func (c caseSpec) actions() []chain.Action {
 			a.Keys = []string{key(fmt.Sprintf("d%d", i), 1)}
 		case 3:
 			a.Keys = []string{key("s", 5), key(fmt.Sprintf("d%d", i), 1)}
+		case 4:
+			a.Keys = []string{key("s", 1)}
+			a.FromID = true
 		}
 		out = append(out, a)
 	}
@@ -114,6 +122,10 @@ var priceGrid = []fees.Dimensions{{0, 0, 0, 0, 0}, {1, 1, 1, 1, 1}, {100, 100, 1
 
 func runCase(c caseSpec) verdict {
 	rules := rig.DefaultRules()
+	rules.ChainID = ids.ID{0xff, 0xfe, 0xfd, 0xfc, 0xfb, 0xfa, 0xf9, 0xf8, 0xf7, 0xf6, 0xf5, 0xf4, 0xf3, 0xf2, 0xf1, 0xf0, 0xff, 0xfe, 0xfd, 0xfc, 0xfb, 0xfa, 0xf9, 0xf8, 0xf7, 0xf6, 0xf5, 0xf4, 0xf3, 0xf2, 0xf1, 0xf0}
+	if c.zeroChain {
+		rules.ChainID = ids.Empty
+	}
 	if c.n > int(rules.MaxActionsPerTx) {
 		rules.MaxActionsPerTx = 255
 	}
@@ -183,7 +195,7 @@ func genCases(thorough bool) []caseSpec {
 						if !thorough && a != b && k != 1 && k != n/2 && k != n-1 {
 							continue
 						}
-						for km := 0; km < 4; km++ {
+						for km := 0; km < 5; km++ {
 							if km > 0 && (a != b) {
 								continue // key sets vary on homogeneous lists
 							}
@@ -192,6 +204,9 @@ func genCases(thorough bool) []caseSpec {
 									continue
 								}
 								out = append(out, caseSpec{scheme: sch, n: n, k: k, a: a, b: b, keyMode: km, ts: ts})
+								if ts == tss[1] && a == b && km <= 1 {
+									out = append(out, caseSpec{scheme: sch, n: n, k: k, a: a, b: b, keyMode: km, ts: ts, zeroChain: true})
+								}
 							}
 						}
 						if n == 0 {
